@@ -114,13 +114,7 @@ class VG:
         if isinstance(e, (ast.Tuple, ast.List)):
             return ("tuple" if isinstance(e, ast.Tuple) else "list", tuple(self.ev(x) for x in e.elts))
         if isinstance(e, ast.Subscript):
-            b, i = self.ev(e.value), self.ev(e.slice)
-            if b[0] == "comp" and b[1] == "ListComp" and len(b[3]) == 1 and not b[3][0][1] and i[0] == "const" \
-                    and i[1].lstrip("-").isdigit() and not _contains_tag(b[2], "comp") \
-                    and not _contains(b[2], lambda t: t[0] == "bound" and t[1:] != (0, 0)):
-                # [f(x) for x in L][k]  ==  f(L[k])   (both raise IndexError when L is too short)
-                return _subst(b[2], ("bound", 0, 0), ("sub", b[3][0][0], i))
-            return ("sub", b, i)
+            return mk_sub(self.ev(e.value), self.ev(e.slice))
         if isinstance(e, ast.Slice):
             return ("slice",) + tuple(self.ev(x) if x is not None else None for x in (e.lower, e.upper, e.step))
         if isinstance(e, ast.Starred):
@@ -215,7 +209,7 @@ class VG:
                 if v[0] in ("tuple", "list") and len(v[1]) == len(t.elts):
                     self.bind(x, v[1][i])
                 else:
-                    self.bind(x, ("sub", v, ("const", repr(i))))
+                    self.bind(x, mk_sub(v, ("const", repr(i))))
         elif isinstance(t, ast.Subscript):
             base = t.value
             newv = ("setitem", self.ev(base), self.ev(t.slice), v)
@@ -302,6 +296,33 @@ class VG:
             self.run(s.body)
         elif isinstance(s, ast.While):
             self.run(s.body)
+
+
+def _const_int(t):
+    if t is None:
+        return True, None
+    if isinstance(t, tuple) and t and t[0] == "const" and isinstance(t[1], str) and t[1].lstrip("-").isdigit():
+        return True, int(t[1])
+    return False, None
+
+
+def mk_sub(b, i):
+    """b[i] with the folds that need no knowledge of values: an element / a constant slice of a literal tuple or list, and
+    [f(x) for x in L][k] == f(L[k])."""
+    if b[0] in ("tuple", "list") and isinstance(i, tuple) and i and i[0] == "slice" and len(i) == 4:
+        oks, vals = zip(*(_const_int(x) for x in i[1:]))
+        if all(oks):
+            return (b[0], tuple(b[1][slice(*vals)]))
+    if b[0] in ("tuple", "list"):
+        ok, k = _const_int(i)
+        if ok and k is not None and -len(b[1]) <= k < len(b[1]):
+            return b[1][k]
+    if b[0] == "comp" and b[1] == "ListComp" and len(b[3]) == 1 and not b[3][0][1] and i[0] == "const" \
+            and i[1].lstrip("-").isdigit() and not _contains_tag(b[2], "comp") \
+            and not _contains(b[2], lambda t: t[0] == "bound" and t[1:] != (0, 0)):
+        # [f(x) for x in L][k]  ==  f(L[k])   (both raise IndexError when L is too short)
+        return _subst(b[2], ("bound", 0, 0), mk_sub(b[3][0][0], i))
+    return ("sub", b, i)
 
 
 def _contains(t, pred):
